@@ -54,7 +54,7 @@ impl Part for Wild {
     }
     fn cases(&self, tier: Tier) -> usize {
         match tier {
-            Tier::Quick => 24_000,
+            Tier::Quick => 72_000,
             Tier::Thorough => 1_600_000,
         }
     }
@@ -83,7 +83,7 @@ impl Part for Soup {
     }
     fn cases(&self, tier: Tier) -> usize {
         match tier {
-            Tier::Quick => 16_000,
+            Tier::Quick => 48_000,
             Tier::Thorough => 1_000_000,
         }
     }
@@ -112,7 +112,7 @@ impl Part for Valid {
     }
     fn cases(&self, tier: Tier) -> usize {
         match tier {
-            Tier::Quick => 8_000,
+            Tier::Quick => 24_000,
             Tier::Thorough => 400_000,
         }
     }
@@ -358,7 +358,7 @@ impl Part for Lattice {
     }
     fn cases(&self, tier: Tier) -> usize {
         match tier {
-            Tier::Quick => 24_000,
+            Tier::Quick => 72_000,
             Tier::Thorough => 1_000_000,
         }
     }
